@@ -50,12 +50,21 @@ def make_case(tier, seed, index):
             scen = {"par": p["name"], "pop": spec["pops"][0], "t": [y0, y0 + 1.0], "y": [gen.sample_value(rng, p["format"], "mild"), gen.sample_value(rng, p["format"], "mild")]}
         projects.append({"kind": "generated", "spec": spec, "progspec": ps, "scenario": scen})
     projects.append({"kind": "library", "name": LIB[int(rng.integers(0, len(LIB)))]})
+    if rng.random() < 0.5:
+        # a library / fixture model under perturbation (several population types, derivative parameters, junction fixtures)
+        from av import corpus
+
+        for _ in range(20):
+            cc = corpus.make_case(rng, max_steps=12)
+            if "stochastic" not in cc["framework"]:  # frameworks calling the random-number generators are excluded by the property
+                projects.append(cc)
+                break
     ops = []
     n = int(rng.integers(6, 10))
     for j in range(n):
         i = int(rng.integers(0, len(projects)))
         cfgs = ["plain"]
-        if projects[i]["kind"] == "library" or projects[i].get("progspec"):
+        if projects[i]["kind"] == "library" or projects[i].get("progspec") or projects[i].get("progbook"):
             cfgs.append("programs")
         if projects[i].get("scenario"):
             cfgs.append("scenario")
@@ -75,6 +84,10 @@ def build(pdesc):
         pset = P.load_progbook(at.LIBRARY_PATH / ("%s_progbook.xlsx" % name))
         instr = at.ProgramInstructions(start_year=P.settings.sim_start + 2)
         return P, pset, instr
+    if pdesc["kind"] == "corpus":
+        from av import corpus
+
+        return corpus.build(pdesc)
     P = gen.build_project(pdesc["spec"])
     if pdesc.get("scenario"):
         sc_ = pdesc["scenario"]
@@ -330,5 +343,5 @@ def run_case(case):
 
     has_prog = any(k[1] == "programs" for k in seen)
     nontrivial = has_prog and R.stats.get("repeats_with_other_project_in_between", 0) > 0
-    sample = {"ops": case["ops"], "projects": [p["name"] if p["kind"] == "library" else {"comps": len(p["spec"]["comps"]), "pars": len(p["spec"]["pars"]), "pops": p["spec"]["pops"], "programs": bool(p.get("progspec"))} for p in case["projects"]], "run_errors": {str(k): v for k, v in errors.items()}}
+    sample = {"ops": case["ops"], "projects": [p["name"] if p["kind"] == "library" else (p["framework"] if p["kind"] == "corpus" else {"comps": len(p["spec"]["comps"]), "pars": len(p["spec"]["pars"]), "pops": p["spec"]["pops"], "programs": bool(p.get("progspec"))}) for p in case["projects"]], "run_errors": {str(k): v for k, v in errors.items()}}
     return {"records": R.records(), "stats": R.stats, "nontrivial": bool(nontrivial), "sample": sample}
